@@ -47,7 +47,7 @@ inductive Exit where
   | orthDFailed (iter : Nat)
   /-- inner `SymGEigsSolver` did not report `Successful`: `m_info = NoConvergence; break` -/
   | rrFailed (iter : Nat)
-  /-- an exception left the inner solver (constructor guard `nev < ncv <= n` or a numerical throw) and hence `compute()` -/
+  /-- an exception left the inner solver (a numerical throw; the constructor guard `nev < ncv <= n` always holds now) and hence `compute()` -/
   | rrThrew (iter : Nat)
   /-- `iter_num` reached `max_iter` (also `max_iter = 0` after a failed initial phase) -/
   | exhausted
@@ -102,7 +102,7 @@ structure Kern (α V : Type) where
   orth : Stage → List V → List V → Option (List V)
   /-- `EigenSolver<Matrix>(X' * AX)`: real parts of eigenvalues and eigenvectors (columns), `none` if `info() != Success` -/
   eig0 : List V → List V → Option (List α × List (List α))
-  /-- Gram matrices + `SymGEigsSolver<…, Cholesky>(…, m_nev, min(10, rows - 1))`, `init()`, `compute(SmallestAlge)` -/
+  /-- Gram matrices + `SymGEigsSolver<…, Cholesky>(…, m_nev, ncv)` with `ncv = innerNcv m_nev rows`, `init()`, `compute(SmallestAlge)` -/
   rr : RRIn α V → RROut α
 
 structure Cfg where
@@ -157,10 +157,15 @@ def sortEpairs {β : Type} (lt : α → α → Bool) (θ : List α) (C : List β
 
 end ops
 
-/-- the constructor guard of the inner `SymGEigsSolver(Aop, Bop, m_nev, min(10, rows - 1))` on a `rows x rows` Gram pencil:
+/-- the `ncv` argument of the inner solver on a `rows x rows` Gram pencil:
+    `ncv = min(10, rows - 1); if (ncv <= m_nev) ncv = min(rows, 2 * m_nev);` -/
+def innerNcv (nev rows : Int) : Int :=
+  if min 10 (rows - 1) ≤ nev then min rows (2 * nev) else min 10 (rows - 1)
+
+/-- the constructor guard of the inner `SymGEigsSolver(Aop, Bop, m_nev, ncv)` on a `rows x rows` Gram pencil:
     the guard itself is the function regenerated from `HermEigsBase.h` -/
 def innerGuard (nev rows : Nat) : Bool :=
-  Gen.Guard.herm_ctor_rvalue (nev : Int) (min 10 ((rows : Int) - 1)) (rows : Int) == Res.ok ()
+  Gen.Guard.herm_ctor_rvalue (nev : Int) (innerNcv (nev : Int) (rows : Int)) (rows : Int) == Res.ok ()
 
 section model
 variable {α V : Type} [Add V] [Sub V] [SMul α V] (K : Kern α V) (c : Cfg)
@@ -260,9 +265,12 @@ structure Out (α V : Type) where
   threw : Bool
   initOk : Bool
 
+/-- first statement of `compute()`: `m_info = Eigen::NoConvergence;` (a previous call must not leave a stale `Success`) -/
+def reset (s : St α V) : St α V := { s with info := .noConvergence }
+
 def compute (maxit : Int) (tol : α) (s0 : St α V) : Out α V :=
   let t := K.tolL2 tol c.n
-  let (s1, l1, ok) := initPhase K s0
+  let (s1, l1, ok) := initPhase K (reset s0)
   let maxIter := if ok then min c.n maxit.toNat else 0
   let (s2, l2, e) := loop K c t maxIter 0 s1 l1
   match e with
@@ -271,8 +279,8 @@ def compute (maxit : Int) (tol : α) (s0 : St α V) : Out α V :=
 
 /-! ### the four accessors -/
 def eigenvalues (s : St α V) : List α := s.evals
-/-- `return m_evectors;` — the coefficient matrix of the last small eigenproblem, NOT the iterate `X` (finding F10) -/
-def eigenvectors (s : St α V) : List (List α) := s.evecs
+/-- `return Matrix(X);` — the n x k iterate (`m_evectors`, the coefficient matrix of the last small eigenproblem, stays internal) -/
+def eigenvectors (s : St α V) : List V := s.X
 def residuals (s : St α V) : List V := s.resid
 def info (s : St α V) : EInfo := s.info
 
